@@ -59,6 +59,17 @@ def run(run, replay=None):
         if n % (total // 5) == 1:
             run.sample({'origin': origin, 'head': data[:100].decode('latin-1'), 'reader_end': res[1],
                         'line': res[2], 'dom_end': dom['end'], 'closed': dom['closed']})
+    # every byte string of MC_Reader's explored raw space goes to the real reader too
+    from harness import gen
+    raws = gen.behaviours('MC_Reader', {'MaxTok': 0, 'RawLen': 3 if quick else 5}, invariant='EmitFiles', run=run,
+                          cfg_extra='CONSTANT Tables <- NoTables\n', timeout=1200)
+    for b in raws:
+        data = bytes(b['f'])
+        res = rdriver.read_bytes(data)
+        c = rdriver.case(len(cases), 'contract', data, cat, result=res, ship_recs=False, dom=rdriver.dom_load(data))
+        cases.append(c)
+        run.count(data, nontrivial=res[1] != 'done')
+    run.notes['byte_strings_from_MC_Reader'] = len(raws)
     can = []
     pool = [c for c in cases if c['end'] == 'parse']
     for k, c in enumerate(rng.sample(pool, min(8, len(pool)))):
